@@ -7,7 +7,7 @@ Conformance  : traces of every family with mixes of terminal / non-terminal time
                infinite targets, both directions, dense on/off, followed by a continuation; OdeTrace.tla decides
                C09.* including the ground truth the scenario defines (the earliest terminal root along the direction).
 """
-from vf import gen, odecore, core
+from vf import modelreplay, gen, odecore, core
 
 LEVEL = "model_checking"
 PREFIX = ("C09.",)
@@ -75,6 +75,9 @@ def check(run, replay=None):
                 "non-terminal ones, two roots in one step, two terminal events, coincident events, boundary root, scaled) x dense "
                 "x continuation, plus infinite targets and state events; non-trivial = the terminal event fired and a continuation ran; "
                 "distinct by (method, span, mix)")
+    if replay and isinstance(replay.get("scenario"), dict) and "modelreplay" in replay["scenario"]:
+        modelreplay.phase(run, [], "C09", ('Events', 'Rows', 'Pieces', 'Status', 'RunTerminates'), replay=replay["scenario"]["modelreplay"])
+        return
     if replay:
         scs = odecore.replay_scenarios(replay)
     else:
@@ -91,5 +94,8 @@ def check(run, replay=None):
             run.nontrivial.add((str(sc["method"]), sc["t0"], sc["tf"], str(sc["ops"][0].get("events"))))
     run.sample({"scenario": scs[0]})
     odecore.judge_traces(run, scs, traces, PREFIX)
+    if not replay:
+        # spec -> code: behaviours of the design model with (terminal and non-terminal) events replayed on the real code; events, rows, pieces and status must be the model's at every API return
+        modelreplay.phase(run, ['OdeSystemSim_fixed_nofault'], "C09", ('Events', 'Rows', 'Pieces', 'Status', 'RunTerminates'), keep=modelreplay.has_events)
     run.assumptions += ["ground truth is available for time events only (roots defined by the scenario); state events are checked "
                         "on the protocol clauses", "continuation is run without re-arming the event that stopped the run"]
